@@ -55,6 +55,14 @@ W = [
     ("table_drain_len", "C16 C06", "E0502", TAB, "let d = t.drain();", "let _ = t.len();", "drop(d);"),
     ("table_extract_if_clear", "C16 C06", "E0499", TAB, "let e = t.extract_if(|_| true);", "t.clear();", "drop(e);"),
     ("table_occupied_into_mut_then_use", "C16 C06", "E0499", TAB, "let r = t.find_entry(1, |x| *x == 1).unwrap().into_mut();", "t.clear();", "drop(r);"),
+    # re-borrows through `&self` / `&mut self` of an entry end with that borrow (R-REBORROW's family; seeds C02-r3-1, C16-r3-3)
+    ("table_occupied_get_remove", "C16 C02 C06", "E0505", TAB + "let o = t.find_entry(1, |x| *x == 1).unwrap();\n", "let r = o.get();", "let _ = o.remove();", "drop(r);"),
+    ("table_occupied_get_mut_remove", "C16 C02 C06", "E0505", TAB + "let mut o = t.find_entry(1, |x| *x == 1).unwrap();\n", "let r = o.get_mut();", "let _ = o.remove();", "drop(r);"),
+    ("map_occupied_get_remove", "C16 C02 C14", "E0505", MAP + "let o = match m.entry(1) { hashbrown::hash_map::Entry::Occupied(o) => o, _ => unreachable!() };\n", "let r = o.get();", "let _ = o.remove();", "drop(r);"),
+    ("map_occupied_get_insert", "C16 C02 C14", "E0502", MAP + "let mut o = match m.entry(1) { hashbrown::hash_map::Entry::Occupied(o) => o, _ => unreachable!() };\n", "let r = o.get();", "let _ = o.insert(String::new());", "drop(r);"),
+    ("raw_occupied_get_key_value_insert", "C16 C02 C14", "E0502", MAP + "let mut o = match m.raw_entry_mut().from_key(&1) { hashbrown::hash_map::RawEntryMut::Occupied(o) => o, _ => unreachable!() };\n", "let r = o.get_key_value();", "let _ = o.insert(String::new());", "drop(r);"),
+    ("raw_occupied_get_remove", "C16 C02 C14", "E0505", MAP + "let o = match m.raw_entry_mut().from_key(&1) { hashbrown::hash_map::RawEntryMut::Occupied(o) => o, _ => unreachable!() };\n", "let r = o.get();", "let _ = o.remove();", "drop(r);"),
+    ("set_occupied_get_remove", "C16 C02 C14", "E0505", SET + "let o = match a.entry(1) { hashbrown::hash_set::Entry::Occupied(o) => o, _ => unreachable!() };\n", "let r = o.get();", "let _ = o.remove();", "drop(r);"),
 ]
 
 # outliving witnesses: (name, props, code, failing program, compiling twin)
